@@ -540,20 +540,27 @@ CSite(c)    == 10 * c               \* site ids: 10, 20 contracts; 11.. function
 FSite(c, f) == 10 * c + f + 1
 AllSites == {CSite(c) : c \in Contracts} \cup {FSite(c, f) : c \in Contracts, f \in Funs}
 
-Lay(src, v) == [source |-> src, values |-> <<v>>]
+\* a layer of the scoping model sets two options: column 1 `loop` (an integer), column 2 a boolean flag (`no-status`)
+Lay(src, v, fl) == [source |-> src, values |-> <<v, fl>>]
 
-ScopeStack(file, cli, sites, c, f) ==
-  <<Lay(1, 2)>>
-  \o (IF file THEN <<Lay(2, 5)>> ELSE <<>>)
-  \o (IF cli THEN <<Lay(5, 7)>> ELSE <<>>)
-  \o (IF CSite(c) \in sites THEN <<Lay(3, 100 + CSite(c))>> ELSE <<>>)
-  \o (IF FSite(c, f) \in sites THEN <<Lay(4, 100 + FSite(c, f))>> ELSE <<>>)
+\* flagAt: where the flag is switched on - 0 nowhere, 2 in halmos.toml, 3 in the annotation of contract 1.  No other
+\* layer mentions it, and a layer that does not mention an option leaves it alone - in particular the command line,
+\* which is parsed in every run, also when it says nothing.
+ScopeStack(file, cli, sites, flagAt, c, f) ==
+  <<Lay(1, 2, 0)>>
+  \o (IF file THEN <<Lay(2, 5, IF flagAt = 2 THEN 1 ELSE None)>> ELSE <<>>)
+  \o <<Lay(5, IF cli THEN 7 ELSE None, None)>>
+  \o (IF CSite(c) \in sites \/ (flagAt = 3 /\ c = 1)
+      THEN <<Lay(3, IF CSite(c) \in sites THEN 100 + CSite(c) ELSE None, IF flagAt = 3 /\ c = 1 THEN 1 ELSE None)>> ELSE <<>>)
+  \o (IF FSite(c, f) \in sites THEN <<Lay(4, 100 + FSite(c, f), None)>> ELSE <<>>)
 
-ScopeRec(file, cli, sites) ==
-  [m |-> "SC", file |-> file, cli |-> cli, sites |-> sites,
+ScopeRec(file, cli, sites, flagAt) ==
+  [m |-> "SC", file |-> file, cli |-> cli, sites |-> sites, flagAt |-> flagAt,
    exp |-> [c \in Contracts |-> [f1 \in 1..3 |->
-              <<Resolve(ScopeStack(file, cli, sites, c, f1 - 1), 1),
-                ResolveSource(ScopeStack(file, cli, sites, c, f1 - 1), 1)>>]]]
+              <<Resolve(ScopeStack(file, cli, sites, flagAt, c, f1 - 1), 1),
+                ResolveSource(ScopeStack(file, cli, sites, flagAt, c, f1 - 1), 1),
+                Resolve(ScopeStack(file, cli, sites, flagAt, c, f1 - 1), 2),
+                ResolveSource(ScopeStack(file, cli, sites, flagAt, c, f1 - 1), 2)>>]]]
 
 (* NatSpec text of a contract: a sequence of segments.  The content of a tag *)
 (* extends to the next tag; only @custom:halmos segments contribute.         *)
@@ -621,9 +628,10 @@ InitScope ==
   /\ DoScope
   /\ stack = <<>>
   /\ \/ /\ mode = "SC"
-        /\ \E file \in BOOLEAN, cli \in BOOLEAN, sites \in SUBSET AllSites :
-              /\ str = <<file, cli, sites>>
-              /\ Emit(ScopeRec(file, cli, sites))
+        /\ \E file \in BOOLEAN, cli \in BOOLEAN, sites \in SUBSET AllSites, flagAt \in {0, 2, 3} :
+              /\ flagAt = 2 => file
+              /\ str = <<file, cli, sites, flagAt>>
+              /\ Emit(ScopeRec(file, cli, sites, flagAt))
      \/ /\ mode = "NS"
         /\ \E segs \in NatSegs : str = segs /\ Emit(NatRec(segs))
 
@@ -757,11 +765,16 @@ ScopeLocal ==
     LET file == str[1]
         cli == str[2]
         sites == str[3]
+        flagAt == str[4]
     IN \A c \in Contracts : \A f \in Funs :
-         LET r == Resolve(ScopeStack(file, cli, sites, c, f), 1) IN
+         LET r == Resolve(ScopeStack(file, cli, sites, flagAt, c, f), 1)
+             fl == Resolve(ScopeStack(file, cli, sites, flagAt, c, f), 2)
+         IN
          /\ cli => r = 7
-         /\ r = Resolve(ScopeStack(file, cli, sites \cap {CSite(c), FSite(c, f)}, c, f), 1)
+         /\ r = Resolve(ScopeStack(file, cli, sites \cap {CSite(c), FSite(c, f)}, flagAt, c, f), 1)
          /\ (~cli /\ FSite(c, f) \in sites) => r = 100 + FSite(c, f)
          /\ (~cli /\ FSite(c, f) \notin sites /\ CSite(c) \in sites) => r = 100 + CSite(c)
+         \* the flag is on exactly where it was switched on: whatever the other layers say about other options
+         /\ fl = (IF flagAt = 2 \/ (flagAt = 3 /\ c = 1) THEN 1 ELSE 0)
 
 =============================================================================
